@@ -1,10 +1,25 @@
-"""C01 - the marginal log-likelihood equals the analytic Gaussian marginal (kernel contracts + Lean bridge)."""
+"""C01 - the marginal log-likelihood equals the analytic Gaussian marginal.
+
+Code-level (z3): entrywise postconditions of the kernel with the property's ghost weights W = ivar/(1+s^2 ivar):
+  Ainv = L^-1 + M^T W M,  A = LAPACK inverse,  b = M mu,  B = W^-1 + M L M^T,  Binv = W - W M A M^T W,
+  value = -1/2 (r^T Binv r + sum log(2 pi |LU(B)_ii|)),  per-row set-up (Keplerian column, jitter-inflated weights,
+  K-variance rule with cap), slot map and unit conversions of CJokerHelper.__init__, design-matrix columns.
+Bridge (Lean, lemmas/Marginal.lean): the entrywise statements are the matrix ones, Binv = B^-1 (Woodbury), and the
+LU diagonal gives log det(2 pi B); hence value = ln N(y | M mu, C + s^2 I + M L M^T)."""
+from . import c08 as C08
 from . import kernel as KN
 
 PROPERTY = "C01"
-CONTRACTS = list(KN.CONTRACTS)
+CONTRACTS = [c for c in KN.CONTRACTS if c is not KN.bgp] + [C08.ct_matrix, C08.ct_matrix_default, C08.trend_matrix]
 CALLEES = dict(KN.CALLEES)
-LIB = dict(KN.LIB)
+CALLEES.update(C08.CALLEES)
+LIB = dict(C08.LIB)
+LIB.update(KN.LIB)
 HOOKS = KN.HOOKS
+AXIOMS = KN.AXIOMS
 LEMMAS = ["Marginal.lean"]
-ASSUMPTIONS = KN.ASSUMPTIONS
+ASSUMPTIONS = KN.ASSUMPTIONS + ["numpy unique / vander / hstack / mask store (design matrix)",
+                                "per-row claims are per-iteration contracts proved for an arbitrary iteration from an arbitrary scratch state; "
+                                "the value written to ll[n] is never rewritten (frame clause), so they hold for every row of every batch"]
+NOT_DECIDED = ["floating-point round-off and conditioning", "convergence of twobody's Kepler solver for e > 0.99",
+               "that LAPACK reports success (info == 0) on every positive-definite input (the failure value INF is part of the contract)"]
